@@ -224,7 +224,11 @@ impl SegmentedLog {
         if root_dir_fsync {
             // To uphold the guarantees provided by this function we should fsync the directory
             // after a new segment file is created.
+            #[cfg(nomt_verif)]
+            crate::verif_hook::begin(crate::verif_hook::Kind::DirSync, std::os::fd::AsRawFd::as_raw_fd(&*self.root_dir_fd), 0, 0, "seglog.append.dirsync")?;
             self.root_dir_fd.sync_all()?;
+            #[cfg(nomt_verif)]
+            crate::verif_hook::end(crate::verif_hook::Kind::DirSync, std::os::fd::AsRawFd::as_raw_fd(&*self.root_dir_fd), 0, 0, "seglog.append.dirsync");
         }
 
         Ok(record_id)
@@ -237,10 +241,14 @@ impl SegmentedLog {
         let new_segment_id = self.gen_segment_id();
         let filename = segment_filename::format(&self.filename_prefix, new_segment_id);
         let path = self.root_dir_path.join(filename);
+        #[cfg(nomt_verif)]
+        crate::verif_hook::begin_path(crate::verif_hook::Kind::Create, &path, "seglog.create_segment")?;
         let file = OpenOptions::new()
             .create_new(true)
             .append(true)
             .open(&path)?;
+        #[cfg(nomt_verif)]
+        crate::verif_hook::end_path(crate::verif_hook::Kind::Create, &path, "seglog.create_segment");
         let new_segment = Segment {
             id: new_segment_id,
             min,
@@ -309,6 +317,8 @@ impl SegmentedLog {
 
             // Remove the segment file from the file system.
             let filename = segment_filename::format(&self.filename_prefix, oldest_segment.id);
+            #[cfg(nomt_verif)]
+            crate::verif_hook::begin_path(crate::verif_hook::Kind::Unlink, &self.root_dir_path.join(&filename), "seglog.prune_oldest")?;
             fs::remove_file(self.root_dir_path.join(filename))?;
 
             // Remove the segment from the in-memory list preserving the order.
@@ -360,10 +370,16 @@ impl SegmentedLog {
         while self.segments.len() > seg_index + 1 {
             let filename =
                 segment_filename::format(&self.filename_prefix, self.segments.last().unwrap().id);
+            #[cfg(nomt_verif)]
+            crate::verif_hook::begin_path(crate::verif_hook::Kind::Unlink, &self.root_dir_path.join(&filename), "seglog.prune_recent")?;
             fs::remove_file(self.root_dir_path.join(filename))?;
             self.segments.pop();
         }
+        #[cfg(nomt_verif)]
+        crate::verif_hook::begin(crate::verif_hook::Kind::DirSync, std::os::fd::AsRawFd::as_raw_fd(&*self.root_dir_fd), 0, 0, "seglog.prune_recent.dirsync")?;
         self.root_dir_fd.sync_data()?;
+        #[cfg(nomt_verif)]
+        crate::verif_hook::end(crate::verif_hook::Kind::DirSync, std::os::fd::AsRawFd::as_raw_fd(&*self.root_dir_fd), 0, 0, "seglog.prune_recent.dirsync");
 
         if let Some(head_segment_writer) = self.head_segment_writer.take().take() {
             let file = head_segment_writer.into_inner();
@@ -390,10 +406,18 @@ impl SegmentedLog {
         let _ = self.head_segment_writer.take();
 
         for segment in &self.segments {
+            #[cfg(nomt_verif)]
+            crate::verif_hook::begin_path(crate::verif_hook::Kind::Unlink, &segment.path, "seglog.remove_all")?;
             fs::remove_file(&segment.path)?;
         }
         self.segments.clear();
         Ok(())
+    }
+
+    /// Verification hook: override the segment size limit.
+    #[cfg(nomt_verif)]
+    pub fn verif_set_max_segment_size(&mut self, size: u64) {
+        self.max_segment_size = size;
     }
 
     /// Get the live range.
@@ -591,6 +615,8 @@ impl Recovery {
         }
 
         for segment in nonlive_segments {
+            #[cfg(nomt_verif)]
+            crate::verif_hook::begin_path(crate::verif_hook::Kind::Unlink, &segment.path, "seglog.open.remove_nonlive")?;
             fs::remove_file(segment.path)?;
         }
         Ok(live_segments)
@@ -633,8 +659,16 @@ fn truncate_head_segment(
     };
 
     let mut file = OpenOptions::new().append(true).write(true).open(path)?;
+    #[cfg(nomt_verif)]
+    crate::verif_hook::begin(crate::verif_hook::Kind::SetLen, std::os::fd::AsRawFd::as_raw_fd(&file), end, 0, "seglog.truncate_head")?;
     file.set_len(end)?;
+    #[cfg(nomt_verif)]
+    crate::verif_hook::end(crate::verif_hook::Kind::SetLen, std::os::fd::AsRawFd::as_raw_fd(&file), end, 0, "seglog.truncate_head");
+    #[cfg(nomt_verif)]
+    crate::verif_hook::begin(crate::verif_hook::Kind::Fsync, std::os::fd::AsRawFd::as_raw_fd(&file), 0, 0, "seglog.truncate_head.fsync")?;
     file.sync_data()?;
+    #[cfg(nomt_verif)]
+    crate::verif_hook::end(crate::verif_hook::Kind::Fsync, std::os::fd::AsRawFd::as_raw_fd(&file), 0, 0, "seglog.truncate_head.fsync");
     file.seek(SeekFrom::Start(end))?;
 
     Ok(SegmentFileWriter::new(file, end))
